@@ -137,7 +137,10 @@ Judge(tr) ==
          ELSE LET W  == WinRows(tr, p.lookback, p.lag)
                   ks == SortedSeq(Keys(tr.pre.w))
                   v  == [k \in 1..tr.K |-> GetOr0(tr.out.w, k)]
-              IN  B("C15.ret", tr.out.ret)
+                  v0 == [k \in 1..tr.K |-> GetOr0(tr.pre.w, k)]
+              IN  \* weights whose ex-ante variance is exactly zero cannot be scaled to a target
+                  IF Bad(Quad(tr, W, ks, v0)) \/ IsZero(Quad(tr, W, ks, v0)) THEN {} ELSE
+                  B("C15.ret", tr.out.ret)
                   \cup B("C15.weights",
                      /\ tr.out.hasw /\ Keys(tr.out.w) = Keys(tr.pre.w)
                      \* ex-ante variance of the new weights, annualised, equals target^2
